@@ -13,6 +13,7 @@ EXPLANATION = (
     "and p.advance(h.payload_length), min(32,len) bound) - or by a frozen row of class `inv` (holds under INV-RLP / INV-PK, which are re-checked here with the C05 rules) or "
     "`lib` (a named library invariant with a reason). A new site, or a site whose discharge no longer proves, is a violation naming the site. Plus: no unsafe block/fn/impl, "
     "no call-graph cycle, every loop iterates a finite std iterator, consumes input on every cycle, or iterates a caller-supplied iterator."
+    " INV-PK additionally re-uses C01's rule on CombinedKey::enr_to_public (fallback to the ed25519 entry), without which public_key()'s expect is reachable."
 )
 TRUSTED = [
     "the may-panic callee table below is complete for the callees this crate uses (the evidence lists every distinct foreign callee)",
@@ -560,3 +561,15 @@ def loops_rule(ctx, report):
             key = "%s/loop%d" % (short_fn(f), sorted(loops).index(head) + 1)
             report.check("TERM", key, progress is not None, "loop in %s makes progress: %s" % (short_fn(f), progress), "cannot establish termination of a loop in %s" % short_fn(f), fn=f.path, sp=f.blocks[head].term.sp, config=cfg)
     report.check("FLOOR", "loops", n >= 5, "loops examined: %d" % n, config=cfg)
+
+
+_own_run = run
+
+
+def run(ctx, report):
+    _own_run(ctx, report)
+    from common import Only
+    from rules import c01
+    # INV-PK presupposes that the CombinedKey reader falls back to the ed25519 entry whenever the secp256k1 entry is unusable
+    c01.pubkey_rule(ctx, Only(report, {"PUBKEY": "INV-PK"}, keys=lambda r, k: k.startswith("enr_to_public/combined")))
+
